@@ -91,12 +91,17 @@ func Unpack(any *anypb.Any, fileResolver protodesc.Resolver, typeResolver protor
 		// message descriptor to create a proto.Message
 		typeURL := strings.TrimPrefix(any.TypeUrl, "/")
 
-		msgDesc, err := fileResolver.FindDescriptorByName(protoreflect.FullName(typeURL))
+		desc, err := fileResolver.FindDescriptorByName(protoreflect.FullName(typeURL))
 		if err != nil {
 			return nil, fmt.Errorf("protoFiles does not have descriptor %s: %w", any.TypeUrl, err)
 		}
 
-		typ = dynamicpb.NewMessageType(msgDesc.(protoreflect.MessageDescriptor))
+		msgDesc, ok := desc.(protoreflect.MessageDescriptor)
+		if !ok {
+			return nil, fmt.Errorf("%s does not name a message: %T", any.TypeUrl, desc)
+		}
+
+		typ = dynamicpb.NewMessageType(msgDesc)
 
 	} else if err != nil {
 		return nil, err
